@@ -347,7 +347,7 @@ theorem step_pre (σ : State) (s : Step) (hl : lazyPrep σ s = none) : Pre σ (s
         · exact Pre.refl σ
         · split
           · exact Pre.refl σ
-          · split <;> exact Pre.refl σ
+          · split <;> split <;> exact Pre.refl σ
     · exact Pre.refl σ
 
 theorem findSome?_ext' {α β : Type} (f g : α → Option β) (l : List α) (h : ∀ x ∈ l, f x = g x) :
@@ -439,7 +439,7 @@ theorem instance_local (σ : State) (c : ClassId) (kw : List (KwName × KwVal))
     · rfl
     · split
       · rfl
-      · split <;> rfl
+      · split <;> split <;> rfl
   · rfl
 
 /-! ## the regeneration rule of `DateYYYYMMDD.__compound_init__`: history independence -/
